@@ -97,9 +97,19 @@ func VH_C08_CacheTransparent() {
 		vhAssert(cold.a.Count() == warm.a.Count(), "same count after reload")
 		// the same operation on both
 		nv64 := vhU64("newval")
-		op := vhChoose("op", 4)
+		op := vhChoose("op", 5)
 		for _, r := range []*vhC08Run{warm, cold} {
 			switch op {
+			case 4: // remove the last element (a tail leaf underflows and borrows from its LEFT sibling)
+				n := r.a.Count()
+				if n == 0 || (withChild && childPos == n-1) {
+					return
+				}
+				old, err := r.a.Remove(n - 1)
+				vhAssert(err == nil, "remove last")
+				if err == nil {
+					vhObserve("removed-last-size", uint64(old.ByteSize()))
+				}
 			case 0:
 				vhAssert(r.a.Append(vU64(nv64)) == nil, "append")
 			case 1:
@@ -158,7 +168,7 @@ func VH_C08_CacheTransparent() {
 // return values and logical content are identical warm and after
 // commit + reopen (registers may legitimately differ for compact maps).
 //
-//vh:prop C08
+//vh:prop C08 C02
 //vh:init cbor
 //vh:sched first
 //vh:param children 2 3
